@@ -76,6 +76,30 @@ def gen_ms(rng, max_events=8, shuffle=None):
             if others:
                 events.append((t, ["-ej", fmt(t), str(i), str(rng.choice(others))]))
                 joined.add(i)
+    # a burst of lineage movements at ONE time: joins into a population that is then split, splits whose new
+    # population is joined elsewhere, chains a -> b -> c; all indices valid, in a random order of the movements
+    if rng.random() < 0.3:
+        t = rng.choice(pool + [4.0, 5.5])
+        if t >= (times[-1] if times else 0):
+            alive = [x for x in range(1, cur + 1) if x not in joined]
+            for _ in range(rng.randint(2, 4)):
+                if len(alive) < 1:
+                    break
+                if rng.random() < 0.5 and len(alive) >= 2:
+                    i, j = rng.sample(alive, 2)
+                    events.append((t, ["-ej", fmt(t), str(i), str(j)]))
+                    joined.add(i)
+                    alive.remove(i)
+                else:
+                    i = rng.choice(alive)
+                    events.append((t, ["-es", fmt(t), str(i), fmt(rng.choice([0.25, 0.5, 0.75]))]))
+                    cur += 1
+                    tgt = [x for x in alive if x != i]
+                    if tgt and rng.random() < 0.85:
+                        events.append((t, ["-ej", fmt(t), str(cur), str(rng.choice(tgt))]))
+                        joined.add(cur)
+                    else:
+                        alive.append(cur)
     # a rate that is switched off and later back to exactly its earlier value (same matrix entry)
     if npop > 1 and rng.random() < 0.35:
         ts = sorted(rng.sample([0.02, 0.04, 0.07, 0.3, 0.6, 0.9], 2))
